@@ -227,11 +227,49 @@ fn run(sc: &Scenario, cx: &mut Cx) -> CaseResult {
     Ok(())
 }
 
+/// Scale probe (see probes.rs): crash points of a backup that writes 10 015 index hunks,
+/// around the creation of the second index sub-directory and at the tail.
+fn enumerate(tier: Tier, idx: u32, of: u32, cx: &mut Cx) -> CaseResult {
+    if !crate::probes::mine(idx, of) {
+        return Ok(());
+    }
+    let (opts, tree) = crate::probes::many_hunks_tree(10_012);
+    let sc = Scenario { initial: tree, prefix: vec![], edits: vec![], opts };
+    let sub = cx.dir("many-hunks");
+    std::fs::create_dir_all(sub.join("r")).unwrap();
+    let mut cx2 = crate::engine::sub_cx(cx, sub.clone());
+    let base = Base::build(&sub, &sc);
+    let key = |verb: V, path: &str| Key { verb, path: path.to_string(), occ: 0 };
+    let mut points = vec![
+        (key(V::CreateDir, "b0000/i/00001"), false),
+        (key(V::Write, "b0000/i/00001/000010000"), true),
+    ];
+    if tier == Tier::Thorough {
+        points.push((key(V::Write, "b0000/i/00000/000009999"), false));
+        points.push((key(V::Write, "b0000/i/00001/000010001"), false));
+        points.push((key(V::Write, "b0000/BANDTAIL"), false));
+    }
+    let mut n = 0u32;
+    for (k, torn) in points {
+        crate::engine::heartbeat();
+        check_point(&base, &sc, &cx2, &k, torn, &mut n).map_err(|mut f| {
+            f.signature = format!("{}/probe-many-hunks", f.signature);
+            f.inner = json!((k, torn));
+            f
+        })?;
+        cx.add_evals(1);
+        cx.inner_nontrivial += 1;
+    }
+    cx2.labels.clear();
+    crate::engine::force_remove(&sub);
+    Ok(())
+}
+
 pub fn prop() -> Prop<Scenario> {
     Prop {
         id: "C03",
         level: "fault_enumeration",
-        rule: "scenario = (initial tree, history prefix of <=3 ops incl. interrupted backups/deletes, edits, options biased to small blocks/hunks) generated by proptest; inner domain enumerated per scenario: every crash point of the logged storage trace of the backup with a distinct outcome = 'storage frozen before mutating operation k' for every mutating k, plus for every write the torn variant (empty file left at the target); quick tier thins to <=80 evenly spaced points per scenario, thorough takes all. Oracle per point: archive opens; every previously complete version restores exactly; independent decoder finds no dangling/short address in any band; if the new head exists the version is listed, not closed, its own entries are a path-order prefix of the new source with the new bytes, its listing equals the stitching rule entry-for-entry and continues with the previous listing after the last recorded path, restore gives the recorded bytes for every file whose ancestors are directories; a follow-up backup succeeds and restores exactly. Non-trivial = crash after the first block write and before the tail write, or any torn write; counted per (scenario, point), distinct by construction",
+        rule: "scenario = (initial tree, history prefix of <=3 ops incl. interrupted backups/deletes, edits, options biased to small blocks/hunks) generated by proptest; inner domain enumerated per scenario: every crash point of the logged storage trace of the backup with a distinct outcome = 'storage frozen before mutating operation k' for every mutating k, plus for every write the torn variant (empty file left at the target); quick tier thins to <=80 evenly spaced points per scenario, thorough takes all. Oracle per point: archive opens; every previously complete version restores exactly; independent decoder finds no dangling/short address in any band; if the new head exists the version is listed, not closed, its own entries are a path-order prefix of the new source with the new bytes, its listing equals the stitching rule entry-for-entry and continues with the previous listing after the last recorded path, restore gives the recorded bytes for every file whose ancestors are directories; a follow-up backup succeeds and restores exactly. Non-trivial = crash after the first block write and before the tail write, or any torn write; counted per (scenario, point), distinct by construction. Fixed scale probe per run: a backup writing 10 015 index hunks, killed before the second index sub-directory is created and (torn) while its first hunk is written (thorough: also hunks 9 999, 10 001 and the tail)",
         assumptions: &[
             "a crash is modelled at transport-operation granularity: the storage becomes inert (every later operation fails without effect); stopping before a non-mutating operation leaves the same directory as stopping before the next mutating one, so only mutating points are enumerated",
             "torn write = zero-length file at the target; partial content and fsync ordering are not modelled",
@@ -239,7 +277,7 @@ pub fn prop() -> Prop<Scenario> {
         cases: |t| t.pick(96, 1200),
         strategy,
         run,
-        enumerate: None,
+        enumerate: Some(enumerate),
         exhaustive: |_| false,
         max_shrink_iters: 60,
     }
